@@ -39,21 +39,21 @@ OBL = [
     dict(id="cursor-sum-sig", fn=r"^hss::signing::InMemoryHssSignature::new$", site=r"assert:Overflow:Add", operand=None,
          reason="cursor + length of a structure parsed from data[index..]: bounded by data.len() <= isize::MAX",
          requires=["read-checked", "tail-parse:hss::signing::InMemoryHssSignature::new"]),
-    dict(id="lms-pk-prefix", fn=r"^lms::definitions::InMemoryLmsPublicKey::new$", site=r"call:core::slice::index::index", operand=r"^data,",
+    dict(id="lms-pk-prefix", fn=r"^lms::definitions::InMemoryLmsPublicKey::new$", site=r"call:core::slice::index::index", operand=None, max_sites=1,
          reason="`&data[..data_index]` where data_index was only advanced by successful reads from data",
          requires=["read-checked", "cursor-only-advanced-by-reads:lms::definitions::InMemoryLmsPublicKey::new"]),
     dict(id="lms-sig-len", fn=r"^lms::signing::InMemoryLmsSignature::len$", site=r"assert:Overflow:Add", operand=None,
          reason="sum of the lengths of disjoint sub-slices of one input slice plus 12",
          requires=["read-checked"]),
     # ---------------- HSS verify ----------------------------------------------------------------
-    dict(id="hss-verify-spk", fn=r"^hss::verify::verify$", site=r"call:(<tinyvec::arrayvec::ArrayVec<A> as core::ops::index::Index<I>>::index|core::option::Option::unwrap)", operand=r"signed_public_keys",
+    dict(id="hss-verify-spk", fn=r"^hss::verify::verify$", site=r"call:(<tinyvec::arrayvec::ArrayVec<A> as core::ops::index::Index<I>>::index|core::option::Option::unwrap)", operand=None, max_sites=4,
          reason="i < public_key.level - 1 == signature.level == number of `Some(..)` entries the parser pushed",
          requires=["GF-LEVEL", "GF-NSPK", "nspk-pushes-some-per-level"]),
     # ---------------- LM-OTS verify ------------------------------------------------------------
     dict(id="chain-array-cap", fn=r"^lm_ots::verify::HashChainArray::push$", site=r"call:tinyvec::arrayvec::ArrayVec::push", operand=r"array_w\d",
          reason="at most p pushes (one per chain) into the array selected for this w, whose capacity is the chain count for (w, 32) >= p(w, n)",
          requires=["T-CAP-CHAIN", "chain-array-one-selected"]),
-    dict(id="chain-array-w1", fn=r"^lm_ots::verify::HashChainArray::as_slice$", site=r"call:core::option::Option::unwrap", operand=r"array_w1",
+    dict(id="chain-array-w1", fn=r"^lm_ots::verify::HashChainArray::as_slice$", site=r"call:core::option::Option::unwrap", operand=None, max_sites=1,
          reason="`new` sets exactly one of the four arrays on every path; the else-branch is reached only if it is array_w1",
          requires=["chain-array-one-selected"]),
     # ---------------- LMS path walk -------------------------------------------------------------
@@ -106,18 +106,18 @@ OBL = [
     dict(id="expand-prev-level", fn=r"^hss::definitions::HssPrivateKey::from$", site=r"call:<tinyvec::arrayvec::ArrayVec<A> as core::ops::index::Index(Mut)?<I>>::index(_mut)?", operand=r"private_key,\(next",
          reason="at loop index i >= 1 exactly i LMS keys have been pushed (root before the loop, one per iteration)",
          requires=["expansion-one-key-per-level"]),
-    dict(id="expanded-key-shape", fn=r"^hss::signing::HssSignature::sign$", site=r"call:(<tinyvec::arrayvec::ArrayVec<A> as core::ops::index::Index(Mut)?<I>>::index(_mut)?|tinyvec::arrayvec::ArrayVec::push)", operand=r"private_key\.",
+    dict(id="expanded-key-shape", fn=r"^hss::signing::HssSignature::sign$", site=r"call:(<tinyvec::arrayvec::ArrayVec<A> as core::ops::index::Index(Mut)?<I>>::index(_mut)?|tinyvec::arrayvec::ArrayVec::push)", operand=r"^\w+\.(private_key|public_key|signatures)\b",
          reason="an expanded key has L private keys, L-1 public keys and L-1 signatures (HssPrivateKey::from); indices are L-1 or < L-1; "
                 "the already-signed test guarantees signatures.len() == L-1 < capacity before the push",
          requires=["expansion-one-key-per-level", "GF-SIGNED-ONCE", "T-SIGCAP"]),
-    dict(id="lifetime-free-leaves", fn=r"^hss::definitions::HssPrivateKey::get_lifetime$", site=r"assert:Overflow:Sub", operand=r"number_of_lm_ots_keys",
+    dict(id="lifetime-free-leaves", fn=r"^hss::definitions::HssPrivateKey::get_lifetime$", site=r"assert:Overflow:Sub", operand=None, max_sites=1,
          reason="used_leafs_index <= 2^h: it is a masked counter digit (< 2^h) possibly advanced once by use_lmots_private_key under the range test",
          requires=["GF-OTS-RANGE", "leaf-digit-masked"]),
     # ---------------- auxiliary data (hash-sigs layout) ---------------------------------------------------
     dict(id="aux-marker", fn=r"^hss::aux::hss_store_aux_marker$", site=r"(assert:BoundsCheck|call:core::slice::index::index_mut)", operand=None,
          reason="called only on the freshly shrunk buffer whose length is hss_get_aux_data_len(..) >= 1, and >= 4+n when the level word is non-zero",
          requires=["aux-store-after-shrink", "aux-word-only-for-nonzero-level"]),
-    dict(id="aux-shrink", fn=r"^hss::definitions::HssPrivateKey::get_expanded_aux_data$", site=r"call:core::slice::index::index_mut", operand=r"take\(aux_data\)",
+    dict(id="aux-shrink", fn=r"^hss::definitions::HssPrivateKey::get_expanded_aux_data$", site=r"call:core::slice::index::index_mut", operand=None, max_sites=1,
          reason="aux_len is min-bounded by the buffer length: hss_get_aux_data_len returns 1 (buffer non-empty is tested first) or orig_len - rest <= orig_len",
          requires=["aux-nonempty-guard", "aux-len-le-input"]),
     dict(id="aux-optimal", fn=r"^hss::aux::hss_optimal_aux_level$", site=r"assert:Overflow:Sub", operand=None,
@@ -161,7 +161,7 @@ OBL = [
         ("save", "call:core::slice::copy_from_slice", 1),
     ]
 ] + [
-    dict(id="aux-finalize", fn=r"^hss::aux::hss_finalize_aux_data$", site=r"call:core::slice::copy_from_slice", operand=r"hmac",
+    dict(id="aux-finalize", fn=r"^hss::aux::hss_finalize_aux_data$", site=r"call:core::slice::copy_from_slice", operand=None, max_sites=1,
          reason="hmac is the n-byte tail left by hss_expand_aux_data for the level word chosen by hss_optimal_aux_level (which reserves 4+n bytes)",
          requires=["aux-fresh-level-from-optimal"]),
     dict(id="hmac-collect", fn=r"^hss::aux::compute_hmac_(i|o)pad$", site=r"call:core::iter::traits::iterator::Iterator::collect", operand=None,
@@ -197,7 +197,7 @@ OBL = [
     dict(id="fv-take-result", fn=r"^lm_ots::signing::optimize_message_hash$", site=r"call:core::slice::copy_from_slice", operand=None,
          reason="destination is the H::OUTPUT_SIZE-byte trailer (interval analysis: split at len - n), source is a worker's randomizer of exactly H::OUTPUT_SIZE bytes",
          requires=["fv-worker-vectors-have-output-size", "fv-results-only-from-workers", "fv-trailer-len-is-output-size"]),
-    dict(id="fv-message-none", fn=r"^lm_ots::signing::optimize_message_hash(::\{closure#0\})?$", site=r"call:(core::panicking::assert_failed|core::result::Result::unwrap)", operand=r"^(adt|try_from\(message\))$",
+    dict(id="fv-message-none", fn=r"^lm_ots::signing::optimize_message_hash(::\{closure#0\})?$", site=r"call:(core::panicking::assert_failed|core::result::Result::unwrap)", operand=r"^(adt|try_from\(\w+\))$",
          reason="below sign_mut the optional immutable message is None: the closure converting it never runs and the compared vectors are both empty",
          requires=["fv-message-none-in-live-contexts"]),
     dict(id="fv-scope-join", fn=r"^lm_ots::signing::optimize_message_hash$", site=r"call:core::result::Result::unwrap", operand=r"^scope",
